@@ -1,7 +1,7 @@
 (* Dispatch table: entry name -> model entry point.  The harness names the entry on every
    case line; the same table is used by the extracted driver and by the kernel cross-check. *)
 Require Import Gengo.Base.Str Gengo.Base.Sexp.
-Require Gengo.Model.Tags Gengo.Model.JsonTag Gengo.Model.Tracker.
+Require Gengo.Model.Tags Gengo.Model.JsonTag Gengo.Model.Tracker Gengo.Model.Namer.
 
 Definition entries : list (string * (sexp -> option sexp)) := [
   ("C08.old", Tags.run_old);
@@ -15,7 +15,10 @@ Definition entries : list (string * (sexp -> option sexp)) := [
   ("C19.string", JsonTag.run_string);
   ("C19.jsonrule", JsonTag.run_jsonrule);
   ("C07.run", Tracker.run_trace);
-  ("C07.run#pcheck", Tracker.run_pcheck_trace)
+  ("C07.run#pcheck", Tracker.run_pcheck_trace);
+  ("C14.names", Namer.run_names);
+  ("C14.plural", Namer.run_plural);
+  ("C14.private", Namer.run_private)
 ]%string.
 
 Fixpoint find_entry (name : str) (l : list (string * (sexp -> option sexp))) : option (sexp -> option sexp) :=
